@@ -19,7 +19,7 @@ META = {
     "design_ref": "DESIGN.md 4 (C08/C02), design/C08.md",
 }
 
-CLAUSES = ["c08_targets", "c08_rounds", "c08_finalize", "c08_once_per_round", "sm_responsive"]
+CLAUSES = ["c08_targets", "c08_rounds", "c08_finalize", "c08_once_per_round", "sm_responsive", "c08_stale_view_inert"]
 
 
 def classify(name, evs, fl):
@@ -43,6 +43,7 @@ def main(argv):
         c.finish()
     n, steps = (48, 40) if c.tier == "quick" else (400, 60)
     S.walked(c, "C08", binary, "c08", n, steps, CLAUSES, classify)
+    S.run_scenarios(c, binary, "c08", CLAUSES, classify)
     S.run_witnesses(c, binary, "C08")
     if not proved and not c.violations:
         b = getattr(c, "broken", {"file": "?", "log": ""})
